@@ -68,7 +68,7 @@ DebugVal(v) ==
     [] v.t = "int"  -> DecStr(v.hi, v.lo)
     [] v.t = "str"  -> "\"" \o DebugStrFrom(v.s, 1) \o "\""
     [] v.t = "list" -> "[" \o DebugSeq(v.l, 1) \o "]"
-    [] v.t = "set"  -> "{" \o DebugSeq(SortSet(v.e), 1) \o "}"
+    [] v.t = "set"  -> "{" \o DebugSeq(SortSet(v.e, <<>>), 1) \o "}"
     [] v.t = "syn"  -> "[syntax node " \o Tr[v.n].kind \o " (" \o NatStr(Tr[v.n].sr + 1) \o ", " \o NatStr(Tr[v.n].sc + 1) \o ")]"
     [] v.t = "gn"   -> "[graph node " \o NatStr(v.g) \o "]"
 DebugSeq(l, i) ==
@@ -76,7 +76,7 @@ DebugSeq(l, i) ==
 DebugOk(v) ==
   CASE v.t = "str" -> IsDebuggable(v.s)
     [] v.t = "list" -> \A i \in 1..Len(v.l) : DebugOk(v.l[i])
-    [] v.t = "set" -> SetSortable(v.e) /\ \A x \in v.e : DebugOk(x)
+    [] v.t = "set" -> SetSortable(v.e, <<>>) /\ \A x \in v.e : DebugOk(x)
     [] OTHER -> TRUE
 PrettyAttrs(m) == [k \in DOMAIN m |-> IF DebugOk(m[k]) THEN [ok |-> TRUE, text |-> DebugVal(m[k])] ELSE [ok |-> FALSE, text |-> ""]]
 PrettyOf(g) ==
